@@ -96,7 +96,8 @@ TraceDecided ==
 TraceSelect == IsInv("Select") /\ Stay(Ev.i, {"select"}) /\ Keep
 TraceNotified == IsInv("Notified") /\ SelNotify(Ev.i) /\ Keep
 TraceBodyDone == IsInv("BodyDone") /\ SelDone(Ev.i) /\ Keep
-TraceRelease == IsInv("Release") /\ ReleaseSem(Ev.i) /\ Keep
+\* the queue inside x/sync/semaphore is not visible: only the count is followed (a hand-over shows as Release, Acquired)
+TraceRelease == IsInv("Release") /\ ReleaseW(Ev.i, 0) /\ Keep
 TraceReturn == IsInv("Return") /\ Return(Ev.i) /\ Keep
 TraceBodyBegin == IsInv("BodyBegin") /\ BodyBegin(Ev.i, Ev.n) /\ Keep
 TraceBodyEnd ==
@@ -104,6 +105,7 @@ TraceBodyEnd ==
     /\ Ev.cx = 1 => bodies[Ev.i][Ev.n].cx      \* a body sees its context cancelled only after cancel()
 \* driver verdict events (bounded waits): decided by the monitor only
 \* CallBegin / CallEnd: marks of the caller driver (harness/fs)
+\* Panic (recovered by the driver) is never explained: conformance stops there, the monitor goes on
 TraceOther == (IsEvent("Stuck") \/ IsEvent("CxTimeout") \/ IsEvent("CallBegin") \/ IsEvent("CallEnd")) /\ UNCHANGED vars /\ Keep
 
 TraceNext ==
